@@ -159,6 +159,25 @@ func checkInstant(c dateCase) string {
 	if m := wantFields(arr, [7]int64{y, mo, d, hh, mi, ss, w}, what); m != "" {
 		return m
 	}
+	// builtins fed by other builtins: a zero shift computed from the time's own fields, the date rebuilt from its fields
+	if c.Sec > -50000000000 && c.Sec < 200000000000 {
+		cf := "[millSecond(addDate(t, 0, month(t) - month(t), day(t) - day(t))), year(date(year(t), month(t), day(t))), month(date(year(t), month(t), day(t))), day(date(year(t), month(t), day(t))), timeFormat(addDate(t, year(t) - year(t), 0, 0), '2006-01-02 15:04:05')]"
+		carr, em := evalArr(cf, data)
+		if em != "" {
+			return em
+		}
+		if g, ok := obs.Int(carr[0]); (!ok || g != c.Sec*1000+c.Nsec/1000000) && !nearTransition(t0, 26*time.Hour) { // in a repeated hour the civil time names two instants
+			return fmt.Sprintf("millSecond(addDate(t, 0, month(t) - month(t), day(t) - day(t))) for %s = %s, want %d (a zero shift)", what, obs.Show(carr[0]), c.Sec*1000+c.Nsec/1000000)
+		}
+		for i, w := range []int64{y, mo, d} {
+			if g, ok := obs.Int(carr[1+i]); !ok || g != w {
+				return fmt.Sprintf("%s(date(year(t), month(t), day(t))) for %s = %s, want %d", []string{"year", "month", "day"}[i], what, obs.Show(carr[1+i]), w)
+			}
+		}
+		if s, _ := carr[4].(string); s != fmt.Sprintf("%04d-%02d-%02d %02d:%02d:%02d", y, mo, d, hh, mi, ss) {
+			return fmt.Sprintf("timeFormat(addDate(t, year(t) - year(t), 0, 0), ...) for %s = %q, want the time itself", what, s)
+		}
+	}
 	// a time keeps its zone and instant when it is bound to a local and read back (same runner, later evaluation too)
 	{
 		r := formula.NewRunner()
